@@ -36,6 +36,7 @@ def Lambda(params, body): return nd("lambda", s="lambda", s2="fun", n=len(params
 def Fn(name, params, body, kind="fun"): return nd("fn", s=name, s2=kind, n=len(params), kids=[Param(p) for p in params] + [body])
 def Block(stmts): return nd("block", kids=stmts)
 def Module(stmts): return nd("module", kids=stmts)
+def Session(stmts): return nd("session", kids=stmts)
 def ExprSt(e): return nd("exprst", kids=[e])
 def Let(name, e):
     if e["k"] == "lambda":
@@ -310,7 +311,7 @@ class Printer:
                 head = f" catch {c['s']}" + (f": {c['s2']}" if c["s2"] else "")
                 self.block(c["kids"][0], head)
             self.nl()
-        elif k == "module":
+        elif k in ("module", "session"):
             for st in n["kids"]:
                 self.stmt(st)
         else:
@@ -328,6 +329,9 @@ def to_source(root, layout="canon"):
 def case_record(cid, root):
     nodes, r = flatten(root)
     names = {"script": [ord(c) for c in "script"], "lambda": [ord(c) for c in "lambda"], "[]": [91, 93], "[]=": [91, 93, 61]}
+    for cname in ("Error", "RuntimeError", "TypeError", "IndexError", "PropertyError", "ValueError", "KeyError",
+                  "ImportError", "ExportError", "SyntaxError", "FormatError", "ChannelError", "MethodNotFoundError"):
+        names[cname] = [ord(c) for c in cname]
     for n in nodes:
         if n["k"] in ("fn", "lambda", "class") and n["s"]:
             names[n["s"]] = [ord(c) for c in n["s"]]
